@@ -192,6 +192,13 @@ def component_queries(w, rows, T, q):
         if not ok:
             viol('get_component_prefers_exact_then_subclass', type=T.__name__, got=repr(g),
                  exact=[repr(x) for x in exact], matches=[repr(m) for m in matches])
+        # the optional default may be ANY object - also one of the entity's own components
+        for d in comps[:3]:
+            g2 = q(w.get_component, e, T, d)
+            ok2 = (g2 is exact[0]) if exact else (any(g2 is m for m in matches) if matches else g2 is d)
+            if not ok2:
+                viol('get_component_prefers_exact_then_subclass', type=T.__name__, got=repr(g2), default=repr(d),
+                     exact=[repr(x) for x in exact], matches=[repr(m) for m in matches])
     return multi_path
 
 
